@@ -510,14 +510,55 @@ def rule_builder_effects(ctx: Ctx, out: Collector) -> None:
     from ..effects import MUTATORS
     n = 0
     bad = []
-    for m in b.methods.values():
-        env = FuncEnv.of(ctx.p, m)
-        fresh = set()
-        for name, defs in env.local_defs().items():
+
+    def fresh_locals(unit) -> set:
+        res = set()
+        for name, defs in FuncEnv.of(ctx.p, unit).local_defs().items():
             if defs and all(d[0] in ('assign', 'annassign') and isinstance(d[1] if d[0] == 'assign' else d[2],
                             (ast.Call, ast.List, ast.Dict, ast.Set, ast.ListComp, ast.DictComp, ast.SetComp, ast.Tuple, ast.Constant,
                              ast.JoinedStr, ast.BinOp, ast.Compare, ast.BoolOp)) for d in defs):
-                fresh.add(name)
+                res.add(name)
+        return res
+
+    def owned_param(unit, pname: str, depth: int = 0) -> bool:
+        """Every call of the builder's own helper `unit` passes, for parameter `pname`, an object the builder owns: something
+        rooted in self, a fresh local of the caller, or a parameter of the caller that is owned in the same sense."""
+        if depth > 3 or unit.cls is not b or unit.parent is not None:
+            return False
+        a = unit.node.args
+        names = [x.arg for x in getattr(a, 'posonlyargs', [])] + [x.arg for x in a.args]
+        if not unit.is_static and names:
+            names = names[1:]
+        sites = 0
+        for caller in b.methods.values():
+            for cu in [caller] + list(caller.nested.values()):
+                fr = fresh_locals(caller) | fresh_locals(cu)
+                for c in FuncEnv.of(ctx.p, cu).own_nodes():
+                    if not (isinstance(c, ast.Call) and isinstance(c.func, ast.Attribute) and c.func.attr == unit.name
+                            and isinstance(c.func.value, ast.Name) and c.func.value.id in ('self', 'cls', b.name)):
+                        continue
+                    sites += 1
+                    arg = None
+                    if pname in names and names.index(pname) < len(c.args):
+                        arg = c.args[names.index(pname)]
+                    for k in c.keywords:
+                        if k.arg == pname:
+                            arg = k.value
+                    if arg is None:
+                        return False
+                    r = arg
+                    while isinstance(r, (ast.Attribute, ast.Subscript)):
+                        r = r.value
+                    if isinstance(r, ast.Name) and (r.id == 'self' or r.id in fr):
+                        continue
+                    if isinstance(r, ast.Name) and owned_param(caller, r.id, depth + 1):
+                        continue
+                    return False
+        return sites > 0
+
+    for m in b.methods.values():
+        env = FuncEnv.of(ctx.p, m)
+        fresh = fresh_locals(m)
 
         def root_of(e):
             while isinstance(e, (ast.Attribute, ast.Subscript)):
@@ -551,6 +592,8 @@ def rule_builder_effects(ctx: Ctx, out: Collector) -> None:
                 if isinstance(r, ast.Name):
                     defs = env.local_defs().get(r.id) or FuncEnv.of(ctx.p, u).local_defs().get(r.id, [])
                     is_param = any(d[0] in ('param', 'iter', 'unpack') for d in defs)
+                    if is_param and all(d[0] == 'param' for d in defs) and owned_param(m, r.id):
+                        continue                # a container the builder's own traversal created and handed to its helper
                     if is_param or not defs:
                         bad.append((u, node, how, unparse(target)))
                 elif isinstance(r, ast.Call) and (dotted(r.func) or '').endswith('globals'):
@@ -590,83 +633,13 @@ def rule_builder_effects(ctx: Ctx, out: Collector) -> None:
 
 
 def rule_node_map_and_validation(ctx: Ctx, out: Collector) -> None:
-    """BD-6, VL-1, VL-2, VL-4."""
+    """BD-6, VL-4 (VL-1, VL-2 and VL-6 are decided over builder worlds: bw.rule_reachability)."""
     trav = _traverse_function(ctx)
     loop, mark_var, kw_var, br = _branches(ctx, trav)
     cur = _current_node_var(trav)
     b = _builder_class(ctx)
     base = f'{trav.module.name}::{trav.qualname}'
     marks = _mark_classes(ctx)
-    # ---- VL-1 (on the function as written: the validation call is a statement of the worklist loop)
-    wl = None
-    for n in ast.walk(trav.node):
-        if isinstance(n, ast.While):
-            wl = n
-    if wl is None:
-        raise AnalysisError('worklist loop not found')
-    wl_src = None
-    for n in ast.walk(ctx.p.func(trav.fid).node):
-        if isinstance(n, ast.While):
-            wl_src = n
-    stmts = (wl_src or wl).body
-    idx_pop = next((i for i, s in enumerate(stmts) if isinstance(s, ast.Assign) and isinstance(s.targets[0], ast.Name)
-                    and s.targets[0].id == cur), None)
-    idx_val = next((i for i, s in enumerate(stmts) if isinstance(s, ast.Expr) and isinstance(s.value, ast.Call)
-                    and 'validate' in unparse(s.value.func) and cur in unparse(s.value)), None)
-    first_use = next((i for i, s in enumerate(stmts) if i != idx_pop and any(isinstance(x, ast.Name) and x.id == cur for x in ast.walk(s))), None)
-    cons = base + '::every popped node is validated before anything else uses it'
-    if idx_pop is not None and idx_val is not None and first_use == idx_val:
-        out.ok('VL-1', cons, ctx.p.loc(trav, stmts[idx_val]), 'validate_node(current) is the first use after the pop')
-    else:
-        out.bad('VL-1', cons, ctx.p.loc(trav, wl), 'a node taken from the worklist is used (added to the map / graph, inspected) before or '
-                                                   'without being validated: an invalid declaration is built instead of rejected',
-                props={'C16'})
-    # ---- VL-6: everything that enters the seen-set of the traversal is also put on the worklist
-    _seen_set_rule(ctx, out, b, trav, wl)
-    # validate_node calls both checks
-    val = b.methods.get('validate_node')
-    if val is not None:
-        called = {x.func.attr for x in ast.walk(val.node) if isinstance(x, ast.Call) and isinstance(x.func, ast.Attribute)}
-        checks = [m.name for m in b.methods.values() if m.name.startswith('_check_')]
-        cons = f'{val.module.name}::{val.qualname}::runs every _check_* rule'
-        missing = [c for c in checks if c not in called]
-        if not missing:
-            out.ok('VL-1', cons, ctx.p.loc(val, val.node), f'{sorted(checks)}')
-        else:
-            out.bad('VL-1', cons, ctx.p.loc(val, val.node), f'validate_node does not run {missing}: those defects are no longer rejected',
-                    props={'C16'})
-    # ---- VL-2 / BD-6: node-valued fields reach the worklist and the node map
-    for name, node in sorted(br.items()):
-        ci = marks.get(name)
-        if ci is None:
-            continue
-        bsrc = unparse(ast.Module(body=node.body, type_ignores=[]))
-        for fld, (ann, default) in ci.fields.items():
-            at = unparse(ann) if ann is not None else ''
-            if 'NodeBase' not in at:
-                continue
-            if name == 'RecurrentSubGraphMark' and fld == 'start_node':
-                continue            # reached through the destination's own marks (frozen exception)
-            cons = base + f'::{name}.{fld} is visited and mapped'
-            visited = False
-            mapped = False
-            ref = f'{mark_var}.{fld}'
-            for c in [x for x in ast.walk(node) if isinstance(x, ast.Call)]:
-                fn = unparse(c.func)
-                args = [unparse(a) for a in c.args]
-                if 'visited' in fn or 'append' in fn:
-                    if any(a == ref for a in args) or _loop_var_of(node, ref, args):
-                        visited = True
-                if 'to_map' in fn or 'node_map' in fn:
-                    if any(a == ref for a in args) or _loop_var_of(node, ref, args):
-                        mapped = True
-            if visited:
-                out.ok('VL-2', cons, ctx.p.loc(trav, node), 'pushed to the worklist (validated and mapped when popped)'
-                       + (', also mapped in the branch' if mapped else ''))
-            else:
-                out.bad('VL-2', cons, ctx.p.loc(trav, node),
-                        f'the nodes declared in {name}.{fld} are not pushed to the worklist: they are neither validated nor translated '
-                        f'(their own dependencies are missing from the DAG)', props={'C15', 'C16'})
     # ---- BD-6: build returns copies, popped node is mapped
     build = b.methods['build']
     bsrc = unparse(build.node)
@@ -689,14 +662,6 @@ def rule_node_map_and_validation(ctx: Ctx, out: Collector) -> None:
         out.ok('BD-6', cons, ctx.p.loc(build, build.node), 'neither the graph nor the node map of the returned DAG is the builder\'s own object')
     else:
         out.bad('BD-6', cons, ctx.p.loc(build, build.node), f'the DAG returned by build shares the builder\'s graph / node map ({"; ".join(sorted(shared))})')
-    cons = base + '::every popped node is added to the node map'
-    mapped_cur = any(isinstance(s, ast.Expr) and isinstance(s.value, ast.Call) and 'map' in unparse(s.value.func) and cur in unparse(s.value)
-                     for s in stmts)
-    if mapped_cur:
-        out.ok('BD-6', cons, ctx.p.loc(trav, wl), 'self._add_node_to_map(current_node) at the top of the worklist loop')
-    else:
-        out.bad('BD-6', cons, ctx.p.loc(trav, wl), 'nodes taken from the worklist are not added to the node map: their ids cannot be '
-                                                   'resolved at run time')
     # ---- VL-4
     cons = f'{build.module.name}::{build.qualname}::graph validation precedes the construction of the DAG'
     validated_always = True
@@ -719,97 +684,6 @@ def rule_node_map_and_validation(ctx: Ctx, out: Collector) -> None:
             out.ok('VL-4', cons, ctx.p.loc(vg, vg.node), f'{sorted(want)}')
         else:
             out.bad('VL-4', cons, ctx.p.loc(vg, vg.node), f'_validate_graph does not run {missing or "any recurrent validation"}', props={'C16'})
-
-
-def _seen_set_rule(ctx: Ctx, out: Collector, b: ClassInfo, trav: FuncUnit, wl: ast.While) -> None:
-    """The traversal pushes a node only if it is not in a seen-set S.  Every node that enters S must be pushed
-    in the same step (otherwise it is never popped, i.e. never validated nor translated)."""
-    cons = f'{trav.module.name}::{trav.qualname}::every node entering the seen-set is pushed onto the worklist'
-    stack_name = None
-    if isinstance(wl.test, ast.Name):
-        stack_name = wl.test.id
-    pushes = [n for n in ast.walk(trav.node) if isinstance(n, ast.Call) and isinstance(n.func, ast.Attribute)
-              and n.func.attr in ('append', 'appendleft', 'extend') and isinstance(n.func.value, ast.Name) and n.func.value.id == stack_name]
-    if stack_name is None or not pushes:
-        raise AnalysisError('worklist pushes not found in the traversal (VL-6 anchor vanished)')
-    from ..guards import guards as _guards
-    S = None            # textual name of the seen-set container
-    via_helper = None
-    for psh in pushes:
-        owner = trav
-        for u in [trav] + list(trav.nested.values()):
-            if any(x is psh for x in ast.walk(u.node)):
-                owner = u
-        for e, pol in _guards(owner.node, psh):
-            if isinstance(e, ast.Compare) and isinstance(e.ops[0], ast.In):
-                S = unparse(e.comparators[0])
-            elif isinstance(e, ast.Call) and pol:
-                # pushed only if helper(node) is true: the helper decides membership
-                fn = e.func.attr if isinstance(e.func, ast.Attribute) else (e.func.id if isinstance(e.func, ast.Name) else None)
-                helper = b.methods.get(fn) if fn else None
-                if helper is not None:
-                    via_helper = helper
-                    for x in ast.walk(helper.node):
-                        if isinstance(x, ast.Compare) and isinstance(x.ops[0], (ast.In, ast.NotIn)):
-                            S = unparse(x.comparators[0])
-    if S is None:
-        raise AnalysisError('membership test guarding the worklist push not found (VL-6 anchor vanished)')
-    problems = []
-    # writes into S outside the push step
-    for m in b.methods.values():
-        units = [m] + list(m.nested.values())
-        for u in units:
-            for n in ast.walk(u.node):
-                writes = False
-                if isinstance(n, ast.Call) and isinstance(n.func, ast.Attribute) and n.func.attr in ('add', 'update') and unparse(n.func.value) == S:
-                    writes = True
-                if isinstance(n, ast.Assign) and any(isinstance(t, ast.Subscript) and unparse(t.value) == S for t in n.targets):
-                    writes = True
-                if isinstance(n, ast.Call) and via_helper is not None and isinstance(n.func, ast.Attribute) and n.func.attr == via_helper.name \
-                        and u is not via_helper:
-                    # a call of the membership-deciding helper: does a push depend on it?
-                    pm = parents(u.node)
-                    par = pm.get(id(n))
-                    used_as_guard = isinstance(par, (ast.If, ast.BoolOp, ast.UnaryOp))
-                    if not used_as_guard:
-                        problems.append(f'{u.qualname}: {unparse(n)[:60]} enters the seen-set without a push')
-                    continue
-                if not writes:
-                    continue
-                if via_helper is not None and u is via_helper:
-                    continue
-                # same block contains a push of the same element?
-                pm = parents(u.node)
-                blk = None
-                cur_ = n
-                while id(cur_) in pm and blk is None:
-                    par = pm[id(cur_)]
-                    for f_ in ('body', 'orelse'):
-                        lst = getattr(par, f_, None)
-                        if isinstance(lst, list) and cur_ in lst:
-                            blk = lst
-                    cur_ = par
-                has_push = blk is not None and any(isinstance(x, ast.Call) and isinstance(x.func, ast.Attribute)
-                                                   and x.func.attr in ('append', 'appendleft') and unparse(x.func.value) == stack_name
-                                                   for st in blk for x in ast.walk(st))
-                if not has_push:
-                    problems.append(f'{u.qualname}: {unparse(n)[:60]} enters the seen-set without a push')
-    # initial content of S must equal the initial content of the stack
-    for n in ast.walk(trav.node):
-        if isinstance(n, ast.Assign) and any(unparse(t) == S for t in n.targets) and isinstance(n.value, (ast.Set, ast.Call, ast.List)):
-            init_s = sorted(unparse(x) for x in ast.walk(n.value) if isinstance(x, ast.Name) and x.id not in ('set', 'list', 'deque'))
-            init_stack = []
-            for m_ in ast.walk(trav.node):
-                if isinstance(m_, ast.Assign) and any(isinstance(t, ast.Name) and t.id == stack_name for t in m_.targets):
-                    init_stack = sorted(unparse(x) for x in ast.walk(m_.value) if isinstance(x, ast.Name) and x.id not in ('set', 'list', 'deque'))
-            if init_s != init_stack:
-                problems.append(f'the seen-set starts as {init_s} but the worklist as {init_stack}')
-    if not problems:
-        out.ok('VL-6', cons, ctx.p.loc(trav, wl), f'seen-set {S}: every insertion is paired with a push onto {stack_name}')
-    else:
-        out.bad('VL-6', cons, ctx.p.loc(trav, wl),
-                f'a node can be recorded as seen ({S}) without being put on the worklist: it is never popped, so it is neither validated '
-                f'nor translated ({"; ".join(problems[:2])})', props={'C16', 'C15'})
 
 
 def _loop_var_of(node: ast.AST, ref: str, args: List[str]) -> bool:
